@@ -271,7 +271,7 @@ func (e *Exec) havoc(st *State, m *ModSet) {
 		if c == "$maps" {
 			continue
 		}
-		st.heap[c] = sentinel
+		st.heap[c] = sentinel // order irrelevant: no names are created here
 	}
 }
 
@@ -583,11 +583,16 @@ func (e *Exec) havocValue(t types.Type, pc *Term, hint string) Value {
 // havocLocal forgets the leaves of a local variable (its address escaped to
 // code that may write it).
 func (e *Exec) havocLocal(st *State, key string) {
-	for k, v := range st.heap {
+	var ks []string
+	for k := range st.heap {
 		if k == key || strings.HasPrefix(k, key+".") {
-			if v != nil && v.S != "" {
-				st.heap[k] = e.fresh(v.Sort, "lh")
-			}
+			ks = append(ks, k)
+		}
+	}
+	sort.Strings(ks)
+	for _, k := range ks {
+		if v := st.heap[k]; v != nil && v.S != "" {
+			st.heap[k] = e.fresh(v.Sort, "lh")
 		}
 	}
 }
